@@ -533,6 +533,79 @@ theorem reapplied_after_status_conflict_witness :
           rfl, by decide, by decide, by decide, by rfl,
           ⟨1, 7, false, ["f", "g"], [("spec", num 1)]⟩, by rfl, by decide, by decide⟩
 
+/-! ## daemons and timers: every invocation delivers its own patch, once -/
+
+/-- Per-invocation patch ownership. Along any run of invocations of a daemon/timer — whatever the other
+    handlers of the object accumulate meanwhile, they are not even an input here: each daemon has a
+    `Patch` of its own from `spawn_daemons` on — every merge request of an invocation carries exactly
+    the fields THIS invocation accumulated (split by the subresource), nothing more, nothing less. -/
+theorem daemon_invocation_owns_its_patch (sub : Bool) :
+    ∀ (cs : List CycleIn) (mem : Option (List Fn)) (s : Server) (c : CycleIn) (res : Result),
+      (c, res) ∈ (daemonRun sub mem s cs).1 →
+      ∀ r ∈ res.reqs,
+        (r.kind = .mergeBody → r.payload = .merge (bodyPart sub c.fields)) ∧
+        (r.kind = .mergeStatus → ∃ v, lookup "status" c.fields = some v ∧ r.payload = .merge [("status", v)]) := by
+  intro cs
+  induction cs with
+  | nil => intro mem s c res h; simp [daemonRun] at h
+  | cons c0 cs ih =>
+    intro mem s c res h r hr
+    simp only [daemonRun, List.mem_cons, Prod.mk.injEq] at h
+    rcases h with ⟨rfl, rfl⟩ | h
+    · unfold daemonCycle cycleOf at hr
+      simp only at hr
+      split at hr
+      · cases hr
+      · have hrt := routed_by_subresource sub (nextPatch mem c.fields c.fns) c.orig c.env s r hr
+        exact ⟨fun hk => (hrt.1 hk).1, fun hk => (hrt.2.1 hk).2⟩
+    · exact ih _ _ c res h r hr
+
+/-- …and once: after an accepted delivery nothing remains, so the next invocation's patch
+    (`Patch(remaining_patch, body=body)`) holds only what that next invocation accumulates; a refused one
+    keeps ALL its fns (daemons carry the framework's too) for the same daemon's next delivery. -/
+theorem daemon_delivery_not_repeated (sub : Bool) (mem : Option (List Fn)) (c : CycleIn) (s : Server) :
+    ((daemonCycle sub mem c.fields c.fns c.orig c.env s).1.outcome.accepted = true →
+      (daemonCycle sub mem c.fields c.fns c.orig c.env s).2 = none) ∧
+    (∀ r b, (nextPatch mem c.fields c.fns).isEmpty = false →
+      (daemonCycle sub mem c.fields c.fns c.orig c.env s).1.outcome = .ok (some r) b →
+      (daemonCycle sub mem c.fields c.fns c.orig c.env s).2 = some (mem.getD [] ++ c.fns)) := by
+  constructor
+  · intro h
+    unfold daemonCycle cycleOf at h ⊢
+    simp only at h ⊢
+    split
+    · rfl
+    · rename_i hne
+      rw [if_neg hne] at h
+      simp only at h ⊢
+      cases ho : (patchObj sub (nextPatch mem c.fields c.fns) c.orig c.env s).outcome with
+      | ok rem b =>
+        rw [ho] at h
+        cases rem with
+        | none => simp [memoryAfter]
+        | some r => simp [Outcome.accepted] at h
+      | gone => rfl
+      | raised => rw [ho] at h; simp [Outcome.accepted] at h
+  · intro r b hne ho
+    unfold daemonCycle cycleOf at ho ⊢
+    simp only [hne, Bool.false_eq_true, if_false] at ho ⊢
+    have hr := (remaining_only_after_refusal sub _ c.orig c.env s r b ho).1
+    rw [ho]
+    simp only [memoryAfter, if_true]
+    rw [hr]; rfl
+
+-- non-vacuity: two invocations of a timer; the first appends to a status list and is accepted, the
+-- second sends only its own field: the list holds the token once
+example :
+    let o : Obj := ⟨1, 5, false, [], []⟩
+    let c1 : CycleIn := ⟨[("status", obj [("a", str "t#0")])], [.appendStatus "log" (str "t#0")], o, Env.quiet⟩
+    let c2 : CycleIn := ⟨[("status", obj [("a", str "t#1")])], [], o, Env.quiet⟩
+    let out := daemonRun false none ⟨5, 1, some o⟩ [c1, c2]
+    out.1.map (fun x => x.2.reqs.map (fun r => (r.kind, r.code))) = [[(.mergeBody, 200), (.jsonBody, 200)], [(.mergeBody, 200)]] ∧
+    out.2.1.isNone = true ∧
+    (out.2.2.obj.map (fun x => ((lookup "status" x.body).bind (fun st => st.get? "log")).map (fun l => J.beq l (arr [str "t#0"])))) = some (some true) := by
+  decide
+
 /-! ## a vanished object ends the patching silently -/
 
 /-- A 404 — the object is gone, or was deleted by a foreign write right before the request, or the
